@@ -173,7 +173,7 @@ def migration(cmd, mode, state=None):
     return ob
 
 
-def layout_migration(k):
+def layout_migration(k, mode='crash', aspect='all'):
     """The folder-layout migration interrupted before effect k, then the same command again (the way `tally update` runs it):
     the data file the settings point at must be where the budget is found."""
     class Q:
@@ -192,7 +192,7 @@ def layout_migration(k):
             cwd = os.getcwd()
             os.chdir(root)
             try:
-                with fsx.Interpose(root, crash_at=k) as ip:
+                with fsx.Interpose(root, **({'crash_at': k} if mode == 'crash' else {'fault_at': k})) as ip:
                     try:
                         _quiet(cli.run_migrations, os.path.join(root, 'config'), True)
                     except fsx.Crash:
@@ -213,9 +213,13 @@ def layout_migration(k):
                 os.chdir(cwd)
                 import shutil
                 shutil.rmtree(root, ignore_errors=True)
+            if aspect == 'data':
+                rules_ok = True          # the listed finding is about the DATA files only ...
+            if aspect == 'rules':
+                data_ok = True           # ... at the same point the rules and settings must still be found: a different failure is a violation
             if not (data_ok and rules_ok):
-                return False, 'layout migration interrupted before effect %d (of %d): after re-running, %s' % (
-                    k, n_effects, 'the configured data file is not where the settings point' if not data_ok else 'the rules / settings are not in the config directory that is found')
+                return False, 'layout migration %s effect %d (of %d): after re-running, %s' % (
+                    'interrupted before' if mode == 'crash' else 'got an I/O error at', k, n_effects, 'the configured data file is not where the settings point' if not data_ok else 'the rules / settings are not in the config directory that is found')
             return True, 'resumable at crash point %d' % k
 
         def __call__(self, **kw):
@@ -236,9 +240,16 @@ def obligations(tier, seed):
         for st in ([False, False, False], [False, True, False], [True, False, False], [True, True, True], [True, False, True]):
             obs.append(Obligation(id=f'init-{mode}-' + ''.join(str(int(x)) for x in st), factory='migration', params={'cmd': 'init', 'mode': mode, 'state': st}, timeout=170 if q else 900,
                                   group='CSV -> .rules migration', bounds=f'`tally init` on a folder with settings={st[0]}, .bak={st[1]}, merchants.rules={st[2]}: symbolic {mode} index 0..24' + (', partial-write mode 0..2' if mode == 'crash' else '')))
-    for k in range(0, 40 if tier != 'quick' else 24):
-        known = k in KNOWN_LAYOUT_POINTS
-        obs.append(Obligation(id=('known-' if known else '') + f'layout-migration-k{k:02d}', factory='layout_migration', params={'k': k}, engine='smt', twin=False, timeout=120,
-                              kind='known' if known else 'main', known_key='C15:layout-migration-not-resumable' if known else None, group='folder-layout migration',
-                              bounds=f'crash before effect {k} of run_migrations (the pinned code performs {N_LAYOUT_EFFECTS}; later indices only exist if the code does more), then re-run'))
+    for mode, kmax in (('crash', 24), ('fault', 16)):
+        for k in range(0, 40 if tier != 'quick' else kmax):
+            known = k in KNOWN_LAYOUT_POINTS
+            tag = 'layout-migration-' + ('fault-' if mode == 'fault' else '')
+            what = (f'crash before effect {k} of run_migrations (the pinned code performs {N_LAYOUT_EFFECTS}; later indices only exist if the code does more), then re-run' if mode == 'crash'
+                    else f'OSError at effect {k} of run_migrations (whatever error handling the code has runs), then re-run')
+            for aspect in (['data', 'rules'] if known else ['all']):
+                kn = known and aspect == 'data'
+                obs.append(Obligation(id=('known-' if kn else '') + tag + f'k{k:02d}' + ('' if aspect == 'all' else '-' + aspect), factory='layout_migration',
+                                      params={'k': k, 'mode': mode, 'aspect': aspect}, engine='smt', twin=False, timeout=120,
+                                      kind='known' if kn else 'main', known_key='C15:layout-migration-not-resumable' if kn else None, group='folder-layout migration',
+                                      bounds=what + {'all': '', 'data': ' (data files where the settings point)', 'rules': ' (rules and settings found)'}[aspect]))
     return obs
